@@ -368,11 +368,12 @@ var _ = resp.Cmd
 
 func checkC09(r *verdict.Run) {
 	r.Rule = "(1) random transaction programs on one connection (any order of MULTI/EXEC/DISCARD/WATCH/UNWATCH, queued commands of all families incl. run-time failures, queue-time rejections, blocking commands with timeout 0, SELECT) with a second connection interfering, in lock step with the reference model: QUEUED replies, nothing visible before EXEC (state compared after every step through an observer connection), EXEC array per queued command or EXECABORT/null, state machine after EXEC/DISCARD, misuse errors; " +
-		"(2) isolation under concurrency: 4 writers run transactions that keep invariants (x = y, a token in exactly one key, an element in exactly one list) while 4 readers check them with atomic multi-key reads, with yields injected between the commands of EXEC; (3) canary liveness after every program; (4) commands with locks of their own (CLIENT LIST/INFO/KILL/UNBLOCK, INFO, FLUSHALL, SELECT, KEYS, COPY ...) inside transactions on four connections and outside on four others at the same time: every command must be answered; (6) directed programs in lock step with the model: every blocking command (timeouts 0 and 30, empty and non-empty source) queued after queued SELECTs to a used, a never used and the own database, followed by further queued commands - EXEC must answer everything at once, in order; (7) a connection that is killed (by itself through a queued CLIENT KILL ... SKIPME no at any position, or by another client while its EXEC is parked between two commands) still runs its whole queue: afterwards all of the transaction's writes are there; (5) isolation against other databases: transactions in database 0 (five INCRs of one key must answer consecutive numbers, x and y are set together) while connections in other databases run FLUSHALL (plain, queued, ASYNC) and transactions with a queued SELECT 0. " +
+		"(2) isolation under concurrency: 4 writers run transactions that keep invariants (x = y, a token in exactly one key, an element in exactly one list) while 4 readers check them with atomic multi-key reads, with yields injected between the commands of EXEC; (3) canary liveness after every program; (4) commands with locks of their own (CLIENT LIST/INFO/KILL/UNBLOCK, INFO, FLUSHALL, SELECT, KEYS, COPY ...) inside transactions on four connections and outside on four others at the same time: every command must be answered; (6) directed programs in lock step with the model: every blocking command (timeouts 0 and 30, empty and non-empty source) queued after queued SELECTs to a used, a never used and the own database, followed by further queued commands - EXEC must answer everything at once, in order; (7) a connection that is killed (by itself through a queued CLIENT KILL ... SKIPME no at any position, or by another client while its EXEC is parked between two commands) still runs its whole queue: afterwards all of the transaction's writes are there; (8) a fault (panic) injected at the handler of one queued command, at every position of the queue: EXEC still answers one reply per command - an error for that one -, the others take effect and the connection is back in normal mode; (5) isolation against other databases: transactions in database 0 (five INCRs of one key must answer consecutive numbers, x and y are set together) while connections in other databases run FLUSHALL (plain, queued, ASYNC) and transactions with a queued SELECT 0. " +
 		"distinct = (command, MULTI state, outcome class) + EXEC element classes + isolation runs"
 	c09Sequential(r, tierPick(r, 400, 8000))
 	c09BlockingInsideTransactions(r)
 	c09KilledMidTransaction(r)
+	c09FaultInQueuedCommand(r)
 	c09Isolation(r, tierPick(r, 6, 40), false)
 	c09Introspection(r, tierPick(r, 8, 60))
 	c09IsolationAcrossDatabases(r, tierPick(r, 6, 40))
@@ -763,5 +764,94 @@ func c09KilledMidTransaction(r *verdict.Run) {
 		time.Sleep(50 * time.Millisecond)
 		w.cn.Close()
 		check(fmt.Sprintf("killed-by-another-client-during-exec/%s", strings.ToLower(kill[2])), tag, map[string]any{"kill_reply": kv.String(), "script": s.log})
+	}
+}
+
+// c09FaultInQueuedCommand: "a runtime error in one command does not stop the others" also holds for the worst runtime
+// error, a handler that panics (the hook cmd:handler panics on request). One command of a transaction fails that way,
+// at every position: EXEC answers one reply per queued command, the failed one with an error, every other command
+// takes effect exactly once, and afterwards the connection is in normal mode with an empty queue.
+func c09FaultInQueuedCommand(r *verdict.Run) {
+	c, err := startChild(false)
+	if err != nil {
+		r.Inconclusive("cannot start child")
+		return
+	}
+	defer func() { c.Stop() }()
+	e, err := startEmu(c, "")
+	if err != nil {
+		r.Inconclusive("infra: " + err.Error())
+		return
+	}
+	obs, err := e.dial()
+	if err != nil {
+		return
+	}
+	defer obs.Close()
+	const n = 5
+	for pos := 0; pos <= n; pos++ {
+		for _, victim := range [][]string{{"ECHO", "x"}, {"LRANGE", "fl", "0", "-1"}, {"HSET", "fh", "f", "v"}} {
+			if !c.Alive() {
+				r.Report("txn/fault-in-queued-command/process-died", "the emulator died when a handler fault was injected inside EXEC:\n"+headLines(c.StderrHead(20000), 20), nil)
+				return
+			}
+			cn, err := e.dial()
+			if err != nil {
+				return
+			}
+			cn.Timeout = 5 * time.Second
+			id, _ := cn.ClientID()
+			obs.Do("DEL", "fc", "fl", "fh")
+			prog := [][]string{{"MULTI"}}
+			for i := 0; i <= n; i++ {
+				if i == pos {
+					prog = append(prog, victim)
+				}
+				if i < n {
+					prog = append(prog, []string{"INCR", "fc"})
+				}
+			}
+			for _, p := range prog {
+				cn.Do(p...)
+			}
+			c.Ctl("panicat cmd:handler %d %s", id, strings.ToLower(victim[0]))
+			ex, err := cn.Do("EXEC")
+			r.Eval(1)
+			name := fmt.Sprintf("%s-at-%d", strings.ToLower(victim[0]), pos)
+			rep := map[string]any{"program": progString(prog), "fault_at": victim}
+			if err != nil {
+				r.Report("txn/fault-in-queued-command/no-exec-reply", fmt.Sprintf("%s: EXEC got no reply after a fault in one queued command: %v", name, err), rep)
+				cn.Close()
+				continue
+			}
+			okShape := ex.Kind == '*' && len(ex.Elems) == n+1
+			if okShape {
+				for i, el := range ex.Elems {
+					if i == pos && !el.IsError() {
+						okShape = false
+					}
+					if i != pos && el.IsError() {
+						okShape = false
+					}
+				}
+			}
+			fc, _ := obs.Do("GET", "fc")
+			after, _ := cn.Do("PING")
+			ex2, _ := cn.Do("EXEC")
+			fc2, _ := obs.Do("GET", "fc")
+			switch {
+			case !okShape:
+				r.Report("txn/fault-in-queued-command/exec-reply", fmt.Sprintf("%s: EXEC replied %s (expected %d replies with an error at position %d only)", name, ex, n+1, pos), rep)
+			case fc.Text() != strconv.Itoa(n):
+				r.Report("txn/fault-in-queued-command/other-commands-not-applied", fmt.Sprintf("%s: the %d INCRs around the failed command left fc = %s", name, n, fc), rep)
+			case after.Text() != "PONG" || !ex2.IsError():
+				r.Report("txn/fault-in-queued-command/still-in-multi", fmt.Sprintf("%s: after EXEC the connection answers PING with %s and a second EXEC with %s", name, after, ex2), rep)
+			case fc2.Text() != fc.Text():
+				r.Report("txn/fault-in-queued-command/queue-executed-again", fmt.Sprintf("%s: a second EXEC changed fc from %s to %s", name, fc, fc2), rep)
+			default:
+				r.Distinct("fault-in-queued-command/" + name)
+			}
+			cn.Close()
+		}
 	}
 }
